@@ -121,6 +121,19 @@ HIST_PROPS = {
 KIND_HEAVY = {"C05", "C07", "C08", "C09"}
 
 
+# ---------------------------------------------------------------------------------------------- manifest tables
+ENGINES = [
+    ("hist", ["C01", "C02", "C03", "C04", "C05", "C06", "C07", "C08", "C09", "C10", "C16", "C18"], "random valid operation histories over a pool of vectors, all monitors after every step"),
+]
+CLAIMED = sorted(HIST_PROPS)
+ENGINE_OF = {p: "hist" for p in HIST_PROPS}
+LEVEL = {}
+LEVEL_TEXT = {}
+LEVEL_NOTE = {}
+TECHNIQUE = {}
+NOT_APPLICABLE = [{"property_id": p, "reason": "check under construction in this round (engine not built yet); see DESIGN.md section 5"} for p in ["C11", "C12", "C13", "C14", "C15", "C17", "C19", "C20"]]
+
+
 def tier_limits(tier):
     if tier == "quick":
         return {"max-cap": 8, "max-span": 6, "max-fixed": 4, "max-steps": 40}
